@@ -20,6 +20,7 @@ DOC = {
         'C03.R5': 'hashing task: send only on Some(hash), for every remaining file of the inode group; a path that cannot be hashed is dropped alone and the next path of the inode is tried; when none can be hashed only that inode group is dropped',
         'C03.R6': 'deduplicate: repeated entries collapsed with unique_by(path hash) (global), never an adjacent-only dedup; entries bucketed by location are all re-emitted',
         'C03.R7': 'a FileInfo field changed by the hash function and used in the group key is propagated to every path of the inode (re-evaluates C01.R6)',
+        'C03.R12': 'a duplicate pair is not dropped by the replication filter because its two files are mistaken for one: file identity is the whole FileId wherever it is used (re-evaluates C01.R11)',
         'C03.R11': 'a readable file is never dropped silently by the transform stage: the only error passed over without a warning is NotFound for a file that is really gone (re-evaluates C15.R5)',
         'C03.R10': 'a stage never joins groups that an earlier stage has separated: the key the suffix stage regroups by identifies the pair (prefix hash, suffix hash) (re-evaluates C01.R3); with --skip-content-hash the merged group would be final, and under --unique / --rf-under both classes would vanish from the report',
         'C03.R9': 'the path identity key (Path::hash128, used by deduplicate, the visited set of the walk and the temp-file names) delimits the components it hashes: it delegates to a derived/std Hash impl or writes a length prefix / terminator next to every raw write',
@@ -43,6 +44,7 @@ def run(ctx):
     reevaluate(ctx, 'C03.R10', c01.r3)
     from . import c15
     reevaluate(ctx, 'C03.R11', c15.r5, ctx.lib)
+    reevaluate(ctx, 'C03.R12', c01.r11)
     from .common import run_mandatory
     run_mandatory(ctx, 'C03')
 
